@@ -357,6 +357,16 @@ class Server(Acceptor):
         self.closeAllIx()
 
 
+    def reopen(self, **kwa):
+        """
+        Idempotently opens listen socket. The remoters of the previous opening
+        were closed by .close() and can not be serviced anymore so forget them.
+        """
+        self.close()
+        self.ixes.clear()
+        return self.open()
+
+
     def removeIx(self, ca, close=True):
         """
         Remove remoter given by connection address ca
